@@ -12,7 +12,7 @@ EXPLANATION = ("Per-operation preservation of the representation invariant from 
                "to grow. Since every operation maps well-formed states to well-formed states the invariant holds after any history "
                "(induction over contracts, not a bounded script). Sizes are bounded (K5), hence level 'other', not 'proof'.")
 ASSUMPTIONS = [
-    "bounded: capacity <= 3, one-character names, stored crystals with 1 atom, added crystal with 2 atoms",
+    "bounded: capacity <= 2 (quick) / 3 (thorough), one-character names, stored crystals with 1 atom, added crystal with 2 atoms",
     "assumed libc contracts in executable form: qsort = sorted permutation of exactly the range passed, bsearch = found <=> present",
     "A-libm: sqrt/cos/pow are unknown pure functions (the recomputed volume is compared by congruence)",
     "Crystal_ReadFile (fopen/fgets/sscanf) is not covered: no CBMC model of stdio",
@@ -21,7 +21,7 @@ ASSUMPTIONS = [
 
 def groups(sc, tier):
     common.prepare(sc)
-    n = 4 if tier == "thorough" else 3
+    n = 3 if tier == "thorough" else 2
     kw = dict(sources=["src/crystal_diffraction.c", "src/xrayvars.c", "src/xraylib-aux.c"], extra=["harness/h_crystal.c", "harness/libm_uf.c"],
               export_local=True, harness_defines=["-DNALLOC=%d" % n], backends=("sat", "cvc5", "z3"), timeout=1800, unwind=n + 3, leak_check=True, object_bits=10,
               bounded="capacity <= %d, 1-character names, 1 / 2 atoms" % n)
